@@ -14,6 +14,7 @@ def main():
     a = ap.parse_args()
     seed = int(os.environ.get('VERIF_SEED') or 0)
     logging.disable(logging.CRITICAL)
+    from harness.lib import usererrors  # noqa: F401  (application error classes, registered before anything is observed)
     from harness.lib import runner
     if a.prop == 'build':
         log = []
